@@ -63,6 +63,7 @@ class DefaultPaginationStrategy(PaginationStrategy):
                     page_number=display_page_num,
                     total_pages=total_pages,
                     data=page_df,
+                    row_start=start_row,
                     is_first_page=(display_page_num == 1),
                     is_last_page=(display_page_num == total_pages),
                     col_widths=context.col_widths,
